@@ -20,14 +20,33 @@ def run(chk):
     for cfg in cfgs:
         db = AstDB(cfg)
         e3.table_closed(db, chk, cfg)
+        e3.table_crossing_update(db, chk, cfg)
+        e3.table_insertion_wind(db, chk, cfg)
+        e3.table_crossing_dispatch(db, chk, cfg)
+    chk.rule("T.wind-crossing", "the winding-count update of IntersectEdges equals the definition (crossing an edge left-to-right adds its "
+             "wind_dx; wind_cnt is the side farther from zero; wind_cnt2 is the other type's region winding), for same-type and cross-type "
+             "crossings, EvenOdd and the three signed rules, all direction pairs, every reachable winding cell")
+    chk.rule("T.wind-insert", "wind_cnt of an edge inserted right of its same-type neighbour (SetWindCountForClosedPathEdge, non-EvenOdd) equals "
+             "the definition; wind_cnt2 accumulates the other type's wind_dx")
+    chk.rule("T.cross-dispatch", "IntersectEdges as a whole on closed paths: from every consistent state (edge carries output iff it is on the "
+             "solution boundary for its counts; counts of the two AEL-adjacent edges geometrically consistent) the calls made "
+             "(AddLocalMaxPoly / AddLocalMinPoly / AddOutPt / SwapOutrecs) leave each edge carrying output iff it is on the boundary for "
+             "its updated counts")
+    chk.floor("T.cross-dispatch", 11000 * len(cfgs))
     chk.floor("T.closed", 1300 * len(cfgs))
+    chk.floor("T.wind-crossing", 14000 * len(cfgs))
+    chk.floor("T.wind-insert", 41 * len(cfgs))
     chk.exhaustive = True
     chk.explanation = (
         "Abstract interpretation of ClipperBase::IsContributingClosed over the finite partition "
         "{(-inf,-3],-2,-1,0,1,2,[3,inf)}^2 of (wind_cnt, wind_cnt2) x 4 fill rules x 5 clip types x 2 path types; every comparison "
         "the code performs is logged and verified to be uniform on each cell, so the extracted table is exact. It is compared, on the "
         "reachable cells (wind_cnt != 0; EvenOdd: wind_cnt in {+-1}, wind_cnt2 in {0,1}), with an oracle derived from the definition "
-        "of the fill rules and the four set operations. NOT decided: winding-count bookkeeping, AEL ordering, intersection points, "
-        "joins, output assembly, tolerances - i.e. the behaviour of C01 itself.")
+        "of the fill rules and the four set operations. The two places where winding counts are *computed* - the update when two edges "
+        "cross (IntersectEdges) and the count given to an edge inserted next to a same-type neighbour (SetWindCountForClosedPathEdge) - are "
+        "decided the same way; there the code adds +-1 to symbolic values, which the interpreter keeps as affine forms so that every "
+        "comparison is still verified uniform on each cell and each ray is sampled at two points (two affine functions that agree at two "
+        "points of a ray agree on it). NOT decided: that the AEL neighbour used is the right one, AEL ordering, intersection points, joins, "
+        "output assembly, tolerances - i.e. the behaviour of C01 itself.")
     chk.assumptions = ["wind_cnt is the winding number of the side of the edge farther from zero (the code's stated invariant)",
                        "wind_cnt2 is the other path type's winding number of the region containing the edge"]
